@@ -74,6 +74,9 @@ where
             let intermediate = &mut intermediate_buffer[..pixels];
             let encoded = &mut encoded_buffer[..pixels.div_ceil(block_width)];
 
+            #[cfg(dds_verif)]
+            crate::verif_hooks::block_event(&[6, y_index, pixels, encoded.len()]);
+
             process(y_index, as_rgba_f32(color, chunk, intermediate), encoded);
 
             cast::ToLe::to_le(encoded);
